@@ -33,6 +33,24 @@ P('C12',
   thorough=dict(cases=300000000, max_size=80, max_seconds=900, fuzz=dict(seconds=60, jobs=4, max_len=128)),
   )
 
+P('C08',
+  technique='property-based testing / model-based: generated caption programs over both fields and all eight channels fed pair by pair; oracle = reference EIA-608 / 47 CFR 15.119 decoder (models/cc608_model.h) compared cell by cell with vbi_fetch_cc_page, plus the rule that a changed page is accompanied by VBI_EVENT_CAPTION',
+  rule='program = per field a sequence of segments, each opened by a mode command of its channel (RCL, RU2/3/4, RDC, EOC; TR, RTD) and continued with PACs (15 rows x indent / colour / italics x underline), '
+       'words of 1-9 characters, special characters, transparent spaces, mid-row codes, background / foreground attribute codes behind a space, FON, tab offsets, BS, DER, CR, EDM, ENM, EOC, NUL pairs; '
+       'control pairs doubled on field 1 (now and then single or repeated on purpose), sent once on field 2, XDS packets between field 2 segments; fields interleaved frame by frame. '
+       'Non-trivial: a mode switch with text on screen, or two carriage returns on a non-empty roll-up / text window, or a window move / resize, or captions on both fields; distinct = hash of consumed choices.',
+  level_text='Generated-history search with an explicit oracle: after every byte pair the page of each channel of that field is fetched; in pop-on mode at all times, otherwise whenever no word is being typed '
+             '(after a space, cursor command, mode command, erase), rows 1-15 x columns 1-32 must equal the displayed memory of the reference decoder: character, opacity, background, and for non-space '
+             'characters foreground, underline, italics and flash; empty cells must be transparent, except for the solid space the standard asks for next to a character; a page that differs from the '
+             'previous fetch must have been announced by a caption event of that channel. Sampling only.',
+  level_note='Trusted: models/cc608_model.h as reading of 47 CFR 15.119 / EIA-608-B (per-cell attributes as in effect when written; attributes of spaces other than background and opacity are not compared; the '
+             'meaning of BS / DER / tab offsets after a character was written in column 32, RU4 on a base row that cannot hold it, control codes addressed to another channel than the one opened by the last '
+             'mode command, extended characters and parity errors are outside the generated domain). Field 2 control codes are sent once, as the property says.',
+  design_ref='DESIGN.md section 2, C08',
+  quick=dict(cases=150000, max_size=3000, max_seconds=120),
+  thorough=dict(cases=3000000, max_size=3000, max_seconds=1500, fuzz=dict(seconds=240, jobs=8, max_len=3000)),
+  )
+
 P('C09',
   technique='property-based testing: generated interleaved/faulted XDS pair streams, differential against a reference reassembly model; event-history oracle for the service decoder',
   rule='part A: 1-6 XDS packets (class 0-6, type 0-0x7F, 0-40 payload bytes, right/wrong checksum, optional missing start) cut into segments and '
